@@ -20,7 +20,7 @@ def main(props):
             continue
         data[p] = {}
         for tier in ("quick", "thorough"):
-            data[p][tier] = sorted(o.id for o in mod.obligations(r, tier, 0))
+            data[p][tier] = sorted(o.id for o in mod.obligations(r, tier, 0) if not runner.SEEDED_ID.search(o.id))
         print(p, {t: len(v) for t, v in data[p].items()})
     with open(path, "w") as f:
         json.dump(data, f, indent=0, sort_keys=True)
